@@ -21,7 +21,8 @@ ASSUMPTIONS = ['mutation of user dictionaries is logged as advisory unless it ch
 MIN_NONVACUOUS = {'quick': {'purity.same_problem_as_fresh': 250, 'purity.probe_does_not_raise': 250},
                   'thorough': {'purity.same_problem_as_fresh': 2000}}
 OPS = ['setup_other', 'setup_other', 'costs_only', 'set_timegrid_none', 'optimize_extract', 'to_json', 'split', 'second_portfolio', 'structured_reuse',
-       'asset_alone', 'failing_call', 'same_grid_other_prices', 'setup_other_tz', 'injected_failure', 'injected_failure', 'change_parameter', 'change_parameter']
+       'asset_alone', 'failing_call', 'same_grid_other_prices', 'setup_other_tz', 'injected_failure', 'injected_failure', 'change_parameter', 'change_parameter',
+       'slp_and_cost_samples']
 _FP = {}
 
 
@@ -174,6 +175,14 @@ def run_case(rng, tier, case):
                             where = fp.inject(target, int(rng.integers(1, n_lines)))
                             outcome = 'injected fault at ' + str(where)
                             case.event('injected_faults')
+                elif op == 'slp_and_cost_samples':
+                    # stochastic program + cost samples on the portfolio's own grid object (make_slp re-restricts the shared grid and edits the problem in place)
+                    import eaopack.stoch_lin_prog as SLP
+                    o = P.setup_optim_problem(b.prices, b.timegrid)
+                    k_ = int(rng.integers(1, max(2, b.timegrid.T)))
+                    samp = [{k: np.asarray(v) for k, v in gen.gen_prices(rng, b.timegrid.T, keys).items()} for _ in range(2)]
+                    P.create_cost_samples(samp, b.timegrid)
+                    SLP.make_slp(o, P, b.timegrid, b.timegrid.timepoints[k_], samp)
                 elif op == 'change_parameter':
                     # the user changes a parameter on the asset object between two set-ups (the spec is changed alike, so that the freshly built
                     # objects of the final comparison carry the new value): a later set-up must reflect the new value, not anything remembered
